@@ -22,6 +22,7 @@ def tasks(tier, seed):
             for n, K in ((2, 2), (4, 2), (3, 3)):
                 t.append(("contracts.gemini_invariance", "task", (cls, ovo, n, K, "duplicates", seed), to, f"{cls}[{'ovo' if ovo else 'ova'},{n}x{K},duplicates]"))
             t.append(("contracts.gemini_invariance", "task", (cls, ovo, 2, 2, "empty", seed), to, f"{cls}[{'ovo' if ovo else 'ova'},2x2,empty]"))
+            t.append(("contracts.gemini_invariance", "task", (cls, ovo, 2, 2, "empty2", seed), to, f"{cls}[{'ovo' if ovo else 'ova'},2x2,empty2]"))
     for d, h in ((1, 1), (2, 2)):
         for st in ("zero_row", "alpha0", "generic"):
             t.append(("contracts.prox", "task", ("linear", (d, h, st), seed), to, f"linear_prox[{d}x{h},{st}]"))
